@@ -8,7 +8,10 @@
    suite still has its 160 passing tests with the patch.
 2. The patch is applied to /repo's working tree, the named checks (default:
    the property's own) are run at the quick tier, and the working tree is
-   restored (`git checkout -- .`) whatever happens.
+   restored (`git checkout -- .`) whatever happens.  With --scratch the
+   checks are instead pointed (VERIF_REPO) at a second scratch worktree that
+   carries the patch, evidence goes to a scratch directory, and /repo is not
+   touched: several seeds can then be tried at once.
 3. /verif/seeded/<seed-id>/ receives patch.diff, the demo and meta.json.
 """
 import json
@@ -63,7 +66,23 @@ def main(argv):
           and meta["confirmed"].get("demo_with_patch_rc") not in (0, None)
           and "160 passed" in meta["confirmed"].get("pytest_with_patch", ""))
     meta["confirmed"]["kept"] = bool(ok)
-    if ok:
+    if ok and "--scratch" in argv:
+        wt2 = "/var/tmp/seedrun_%s_%d" % (seed, os.getpid())
+        sh(["git", "-C", REPO, "worktree", "add", "-q", "--detach", wt2, "HEAD"])
+        try:
+            rc, o = sh(["git", "-C", wt2, "apply", os.path.join(out, "patch.diff")])
+            env2 = dict(os.environ, VERIF_REPO=wt2, VERIF_EVIDENCE_DIR="/var/tmp/ev_seed_%s" % seed)
+            for chk in checks:
+                t0 = time.time()
+                rc, o = sh(["python3", os.path.join(VERIF, "tools", "check.py"), chk, "--tier", "quick"], cwd=VERIF, env=env2, timeout=7200)
+                lines = [ln for ln in o.splitlines() if ln.startswith("VIOLATION") or ln.startswith("KNOWN-FINDING") or ln.startswith(chk + ":")]
+                meta["checks"][chk] = {"exit": rc, "detected": rc == 1 and any(l.startswith("VIOLATION") for l in lines),
+                                       "lines": [l[:300] for l in lines][:8], "wall_s": round(time.time() - t0, 1)}
+                meta["ran"].append("scratch worktree with patch.diff applied; VERIF_REPO=<worktree> python3 tools/check.py %s --tier quick; worktree removed" % chk)
+        finally:
+            sh(["git", "-C", REPO, "worktree", "remove", "--force", wt2])
+            shutil.rmtree("/var/tmp/ev_seed_%s" % seed, ignore_errors=True)
+    elif ok:
         rc, o = sh(["git", "-C", REPO, "status", "--porcelain", "--untracked-files=no"])
         if o.strip():
             raise SystemExit("refusing: /repo working tree is not clean:\n" + o)
